@@ -169,6 +169,148 @@ TASKS.append(LemmaTask("welch-average-unequal-lengths", [_t1 > 0, _t2 > 0, _n1 >
                        (((0 + _p1 / _t1 / _n1 + _p2 / _t2 / _n2) / _fs) * 2) / 2 == ((((0 + _p1 / _t1 / _n1) / _fs) * 2) / 1 + (((0 + _p2 / _t2 / _n2) / _fs) * 2) / 1) / 2,
                        "two windows of different lengths: the postcondition's value is the average of the two one-window values"))
 
+# ---------------------------------------------------------------------------------------------------------------------
+# psd_preprocess under contract: the documented chain per recording, in order - (orient,) zero-phase filter; if a response is removed or the record is
+# differentiated: constant detrend and taper; response removal on each of ns / ew / vt followed by the filter again; spectral derivative on each of ns / ew / vt;
+# split; detrend each window - with the published FFT length.  Same technique as hvsr_preprocess (C10): every object has one abstract content in a ghost
+# map, every stage is an uninterpreted function of the content it is applied to, so any other order, a skipped stage or a component mix-up is a different term.
+import contracts.C10 as _P
+from pyvc.core import ClsV, StrV, NONE, Tup, lit, real as _real17
+from pyvc.objects import SObj
+
+P_ORIENT, P_BUTTER, P_WINDOWC, P_NW3, P_W3, P_NOFF = _P.ORIENT, _P.BUTTER, _P.WINDOWC, _P.NW3, _P.W3, _P.NOFF
+DETR = z3.Function("DETREND_T", I, I, I)                 # (content, type code)
+TAPER = z3.Function("TAPER", I, R, I)                    # (content, width)
+GETC = z3.Function("COMPONENT", I, I, I)                 # (recording content, component code) -> time-series content
+SETC = z3.Function("WITH_COMPONENT", I, I, I, I)         # (recording content, component code, time-series content) -> recording content
+RESPT = z3.Function("REMOVE_RESPONSE", I, I, I, I)       # (time-series content, transfer function, n_fft)
+DIFFT = z3.Function("DIFFERENTIATE", I, I, I)            # (time-series content, n_fft)
+ITF = z3.Int("instrument_transfer_function")
+PWID = z3.Real("taper_width")
+_CC = {"ns": 0, "ew": 1, "vt": 2}
+_DT = {"constant": 1, "linear": 0}
+
+
+def _each_component(c, f):
+    for k in (0, 1, 2):
+        c = SETC(c, z3.IntVal(k), f(GETC(c, z3.IntVal(k))))
+    return c
+
+
+def PCP(i, oriented, resp, diff):
+    c = z3.Select(_P.C0, z3.Select(_P.RIDS, i))
+    c = P_BUTTER(P_ORIENT(c, _P.DEG0) if oriented else c, _P.FLO, _P.FHI)
+    if resp or diff:
+        c = TAPER(DETR(c, z3.IntVal(_DT["constant"])), PWID)
+    if resp:
+        c = P_BUTTER(_each_component(c, lambda t: RESPT(t, ITF, NFFT)), _P.FLO, _P.FHI)
+    if diff:
+        c = _each_component(c, lambda t: DIFFT(t, NFFT))
+    return c
+
+
+class _TsC:
+    """a time series known by its content only (what getattr(recording, component) and the per-component stages hand around)"""
+    def __init__(self, content):
+        self.content = content
+
+
+def _m_getattr17(ex, st, args, kw, node):
+    rec, name = args
+    return _TsC(GETC(z3.Select(st.env["__C"], rec.id), z3.IntVal(_CC[name.s])))
+
+
+def _m_setattr17(ex, st, args, kw, node):
+    rec, name, ts = args
+    st.env["__C"] = z3.Store(st.env["__C"], rec.id, SETC(z3.Select(st.env["__C"], rec.id), z3.IntVal(_CC[name.s]), ts.content))
+    return NONE
+
+
+def _m_resp17(ex, st, args, kw, node):
+    ts, itf, fft = args
+    return _TsC(RESPT(ts.content, lit(itf), lit(fft.items["n"])))
+
+
+def _m_diff17(ex, st, args, kw, node):
+    ts, fft = args
+    return _TsC(DIFFT(ts.content, lit(fft.items["n"])))
+
+
+def _m_detr17(ex, st, args, kw, node):
+    _P._upd(st, args[0].id, DETR(z3.Select(st.env["__C"], args[0].id), z3.IntVal(_DT[kw["type"].s])))
+    return NONE
+
+
+def _m_taper17(ex, st, args, kw, node):
+    _P._upd(st, args[0].id, TAPER(z3.Select(st.env["__C"], args[0].id), _real17(args[2])))
+    return NONE
+
+
+def _m_prepare_fft17(ex, st, args, kw, node):
+    st.heap[args[1].oid].fields["fft_settings"] = DictV({"n": NFFT})
+    return NONE
+
+
+def _psdpre_inputs(oriented, resp, diff):
+    def mk(ex, st):
+        facts = _P._pre_inputs(oriented)(ex, st)
+        o = st.heap[st.env["settings"].oid].fields
+        o.update({"instrument_transfer_function": ITF if resp else NONE, "differentiate": z3.BoolVal(diff), "window_type_and_width": Tup((StrV("tukey"), PWID)),
+                  "fft_settings": NONE})
+        return facts + [NFFT >= 2]
+    return mk
+
+
+def _psdpre_axioms(oriented, resp, diff):
+    r, j, i, k = z3.Ints("r!w j!w i!w k!w")
+    nw = lambda q: P_NW3(PCP(q, oriented, resp, diff), _P.LWIN)
+    return [
+        z3.ForAll([r, j], z3.And(_P.WREC(P_W3(r, j)) == r, _P.WPOS(P_W3(r, j)) == j, _P.ISWIN(P_W3(r, j))), patterns=[P_W3(r, j)]),
+        z3.ForAll([i], z3.Not(_P.ISWIN(z3.Select(_P.RIDS, i))), patterns=[z3.Select(_P.RIDS, i)]),
+        z3.ForAll([r, z3.Real("l!w")], P_NW3(r, z3.Real("l!w")) >= 0, patterns=[P_NW3(r, z3.Real("l!w"))]),
+        P_NOFF(0) == 0,
+        z3.ForAll([k], z3.Implies(k >= 0, P_NOFF(k + 1) == P_NOFF(k) + nw(k)), patterns=[P_NOFF(k + 1)]),
+        z3.ForAll([i, k], z3.Implies(z3.And(0 <= i, i < k), P_NOFF(i) + nw(i) <= P_NOFF(k)), patterns=[z3.MultiPattern(P_NOFF(i), P_NOFF(k))]),
+        z3.ForAll([i, k], z3.Implies(z3.And(0 <= i, i <= k), P_NOFF(i) <= P_NOFF(k)), patterns=[z3.MultiPattern(P_NOFF(i), P_NOFF(k))]),
+    ]
+
+
+def _psdpre_contract(oriented, resp, diff):
+    pc = lambda i: PCP(i, oriented, resp, diff)
+    lin = z3.IntVal(_DT["linear"])
+    gh = {"C": FuncV(lambda ex, st, a, k, n_: z3.Select(st.env["__C"], a[0] if z3.is_expr(a[0]) else a[0].id), "C"), "C0": lambda r: z3.Select(_P.C0, r),
+          "RID": lambda i: z3.Select(_P.RIDS, i), "W3": P_W3, "NOFF": P_NOFF, "NW": lambda i: P_NW3(pc(i), _P.LWIN), "PC": pc,
+          "FINAL": lambda i, j: DETR(P_WINDOWC(pc(i), _P.LWIN, j), lin), "WINDOWC": lambda c, j: P_WINDOWC(c, _P.LWIN, j), "DETL": lambda c: DETR(c, lin),
+          "same_obj": FuncV(lambda ex, st, a, k, n_: a[0].id == a[1], "same_obj"), "LREC": _P.LREC, "NFFT": NFFT}
+    done = "forall(i, 0, {k}, forall(j, 0, NW(i), same_obj(preprocessed_records[NOFF(i) + j], W3(RID(i), j)) and C(W3(RID(i), j)) == FINAL(i, j)))"
+    loops = {0: ["len(preprocessed_records) == NOFF(_k0)", done.format(k="_k0"), "forall(i, _k0, LREC, C(RID(i)) == C0(RID(i)))"]}
+    inner = ["len(preprocessed_records) == NOFF(_k0)", done.format(k="_k0"), "forall(i, _k0 + 1, LREC, C(RID(i)) == C0(RID(i)))",
+             "forall(j, 0, _k, C(W3(RID(_k0), j)) == DETL(WINDOWC(PC(_k0), j)))", "forall(j, _k, NW(_k0), C(W3(RID(_k0), j)) == WINDOWC(PC(_k0), j))"]
+    # loop ordinals in source order: 0 records; 1 response components; 2 derivative components; 3 windows (the component loops run over a literal list: unrolled)
+    loops[3] = inner
+    return Contract(qual="hvsrpy.preprocessing.psd_preprocess", params=["records", "settings"], ghost=gh, axioms=_psdpre_axioms(oriented, resp, diff),
+                    make_inputs=_psdpre_inputs(oriented, resp, diff), sym_lists={"preprocessed_records": "SeismicRecording3C"},
+                    ensures=["len(result) == NOFF(LREC)",
+                             "forall(i, 0, LREC, forall(j, 0, NW(i), same_obj(result[NOFF(i) + j], W3(RID(i), j)) and C(W3(RID(i), j)) == FINAL(i, j)))",
+                             "settings.fft_settings['n'] == NFFT"],
+                    loops=loops, modifies=["param:records", "param:settings"],
+                    notes="every recording: (orient,) filter; [constant detrend, taper]; [response removal on ns, ew, vt, filter]; [derivative on ns, ew, vt]; split; "
+                          "detrend each window; windows of all recordings in order; FFT length as published by prepare_fft_settings")
+
+
+for _or, _rs, _df in ((True, False, False), (True, True, False), (True, False, True), (True, True, True), (False, True, True)):
+    _c = _psdpre_contract(_or, _rs, _df)
+    _c.ghost_state = ("__C",)
+    TASKS.append(FunctionTask(_c, registry={"SeismicRecording3C.orient_sensor_to": FuncV(_P._m_orient, "orient_sensor_to"),
+                                            "SeismicRecording3C.butterworth_filter": FuncV(_P._m_butter, "butterworth_filter"),
+                                            "SeismicRecording3C.split": FuncV(_P._m_split3, "split"), "SeismicRecording3C.detrend": FuncV(_m_detr17, "detrend"),
+                                            "SeismicRecording3C.window": FuncV(_m_taper17, "window")},
+                              module_env={"SeismicRecording3C": ClsV("SeismicRecording3C"), "prepare_fft_settings": FuncV(_m_prepare_fft17, "prepare_fft_settings"),
+                                          "getattr": FuncV(_m_getattr17, "getattr"), "setattr": FuncV(_m_setattr17, "setattr"),
+                                          "_remove_instrument_response": FuncV(_m_resp17, "_remove_instrument_response"), "_differentiate": FuncV(_m_diff17, "_differentiate")},
+                              label=f"hvsrpy.preprocessing.psd_preprocess[orient={'yes' if _or else 'None'},response={'yes' if _rs else 'None'},differentiate={_df}]",
+                              clauses=["PSD preprocessing applies the documented stages in order, component by component"]))
+
 # diffuse_field_hvsr_processing and rpsd: which recordings / components / FFT length / operator arguments / formula give the result
 import contracts.drv_psd as _DRVPSD
 TASKS += _DRVPSD.TASKS
